@@ -17,14 +17,17 @@
    encoder must write fits its declared width (page sizes in i32: phdr_wf; footer: wfb), nesting <= 64,
    footer shorter than 4 GiB, and the logical types attached to the leaves conform to the IDL; that the
    whole footer then conforms to the IDL is a theorem (conf_fmd).  C02_roundtrip_hypotheses_nonvacuous
-   shows a file satisfying all of them.  Not proved: that EVERY table has a layout (a one-page PLAIN
-   layout exists for every table; only instances are shown).                                          *)
+   shows a file satisfying all of them.  C02_every_table_has_a_layout: every table (one list of cells per
+   leaf and row group, no NULL in a required column) is the denotation of a layout (one v1 PLAIN page per
+   chunk), so "for every table and every layout" = for every lfile.  (That this particular layout also
+   satisfies lfile_wf needs the representability bounds on the table's sizes and value_ok of its values;
+   not stated as a theorem.)                                                                            *)
 From Coq Require Import String.
 From Coq Require Import NArith ZArith List Bool Arith Lia.
 From Pq Require Import Base.Bytes Base.ListX Codec.Hybrid Thrift.Compact Thrift.Idl Thrift.IdlPinned Format.Phys Format.Meta Format.Page
   Format.ChunkLayout Format.File Format.Enc
   Proofs.ChunkLayoutProofs Proofs.HybridProofs Proofs.FormatCodecProofs Proofs.FormatPageProofs Proofs.FormatChunkProofs
-  Proofs.FormatMetaProofs Proofs.FormatIdlProofs Proofs.FormatFileProofs.
+  Proofs.FormatMetaProofs Proofs.FormatIdlProofs Proofs.FormatFileProofs Proofs.FormatLayoutProofs.
 Import ListNotations.
 Open Scope list_scope.
 
@@ -156,6 +159,12 @@ Theorem C02_spec_roundtrip :
   valid_file decompress strict (enc_file compress f) = ROk tt.
 Proof. exact spec_roundtrip. Qed.
 Print Assumptions C02_spec_roundtrip.
+
+(* every table is the denotation of some layout *)
+Theorem C02_every_table_has_a_layout : forall leaves rgs cb, table_fits leaves rgs ->
+  table_of (layout_of leaves rgs cb) = Some (map leaf_of_l leaves, rgs).
+Proof. exact every_table_has_a_layout. Qed.
+Print Assumptions C02_every_table_has_a_layout.
 
 (* decoding alone needs no strictness: a second dictionary page in a chunk, unequal row counts ... *)
 Theorem C02_spec_roundtrip_dec :
